@@ -13,7 +13,7 @@ from .. import sym, cg, irrules
 from ..sym import const_of, single_atom, atom, lin_sub, lin_scale
 from ..irrules import Report, base_name, obj_of, where
 
-ESIZE = {'NM': 4, 'TM': 4, 'MO': 4, 'MOT': 4, 'CO': 4}
+ESIZE = {'NM': 4, 'NA': 4, 'TM': 4, 'MO': 4, 'MOT': 4, 'CO': 4}
 
 
 def direct_reachers(eng, kinds):
